@@ -14,6 +14,7 @@ import MqttVerif.Model.Heap
 import MqttVerif.Model.Errors
 import MqttVerif.Model.Retry
 import MqttVerif.Model.BaseClient
+import MqttVerif.Model.KeepAlive
 
 open Mqtt
 
@@ -475,6 +476,13 @@ def handle (toks : List String) : Option String :=
       pure s!"top={top} is={bits} retry={showBool (hasRetry x)} rto={showBool (stdAsRto x).isSome}"
   | "retry" :: rest => RetryIO.run rest
   | "bc" :: rest => BCIO.run rest
+  | "ka" :: toks => do
+    let evs ← toks.mapM (fun t => match t with
+      | "a" => some KA.PingEvent.pingresp | "n" => some .timeout | "c" => some .parentCancel
+      | "w" => some .writeFail | "e" => some .connEnd | _ => none)
+    match KA.keepAlive (evs.map KA.pingOutcome) with
+    | .running n => pure s!"pings={n} result=running"
+    | .stopped n e => pure s!"pings={n} result=E:{e}"
   | ["rp", hex] => do
     let bs ← parseDesc hex
     let r := readPacket bs
